@@ -119,14 +119,16 @@ CHECKS["C12"] = dict(
          "C12_parts: every shipped includes/*def.inc whose device is in the table declares the figures the table enforces (both "
          "regenerated from /repo on every run, compared by vm_compute). C12_only_device_selects: no directive but .device (and .include, which hands over to another file) changes the selected device." + PROG,
     note=BASE + " Search: every device row x 3 memories x {cap-1, cap, cap+1} reached by .org, data, code, reservation; the report the "
-         "command-line tool prints with -v (usage and capacity of the three memories) under every device row.",
+         "command-line tool prints with -v (usage and capacity of the three memories) under every device row. The figures every part is "
+         "demanded to have are spec/devices.tsv (my transcription; trusted base): the table regenerated from the code must equal it.",
     tech="Coq proof (characterisation of the capacity check) + regenerated device/part tables + exhaustive boundary runs", ref="3 C12")
 CHECKS["C13"] = dict(
     text="Theorem C13_gate (Props/C13.v): for EVERY set of feature flags (all 2^16, not only the 54 rows), every operation and operand "
          "list, the gate of pass 2 passes the instruction iff no flag the device carries removes that form according to the flag "
          "documentation (Spec/GateSpec.v); C13_same_code: the device enters the encoder only through the reduced-core flag and only for "
          "lds/sts - every other instruction encodes identically under any device; C13_pass2_rejects. IN A PROGRAM: C13_every_instruction_gated - every instruction of a build pass 2 accepts passed the gate of THE device of the program, wherever the .device line stands." + PROG,
-    note=BASE + " Search: 54 devices x 111 instruction forms exhaustively.",
+    note=BASE + " Search: 54 devices x 119 instruction forms exhaustively, also with the device selected after the code and behind the "
+         "62 shipped part-definition files; the feature flags every part is demanded to have are spec/devices.tsv (trusted base).",
     tech="Coq proof (case analysis over operations and flags) + regenerated device table + exhaustive device x form runs", ref="3 C13")
 CHECKS["C14"] = dict(
     text="Proved (Props/C14.v, unbounded): letter case of mnemonics, function names, index registers, register prefix (symbol "
